@@ -5,6 +5,7 @@ From Coq Require Import List ZArith NArith Bool Arith Lia.
 Require Import RV.model.Syntax RV.model.Compiler RV.model.VM.
 Require Import RV.proofs.VMScalarProofs.
 Require RV.model.VarProg RV.proofs.VarProgFacts.
+Require Import RV.proofs.PatchFacts.
 Module P := RV.model.VarProg.
 Module PF := RV.proofs.VarProgFacts.
 Import ListNotations.
@@ -75,9 +76,6 @@ Section VarVM.
   Proof. intros H. cbn [exec]. rewrite H. reflexivity. Qed.
 
 
-  Ltac split_consts Hc := let i := fresh "i" in let kk := fresh "kk" in let Hik := fresh "Hik" in
-    intros i kk Hik; apply Hc; rewrite nth_error_app1; [exact Hik|apply nth_error_Some; congruence].
-
   Lemma consts_l (ka kb : list konst) base :
     (forall i k, nth_error (ka ++ kb) i = Some k -> nth (base + i) (code_consts c) (KInt 0) = k) ->
     forall i k, nth_error ka i = Some k -> nth (base + i) (code_consts c) (KInt 0) = k.
@@ -122,173 +120,248 @@ Section VarVM.
   Definition consts_at (base : nat) (ks : list konst) : Prop :=
     forall i kk, nth_error ks i = Some kk -> nth (base + i) (code_consts c) (KInt 0) = kk.
 
-  Definition after (r : (list F.sval * F.sval) + F.serr) (room : nat) (s : mstate) (start stop : nat)
+  (* how the machine goes on after a statement that ran as r: after its code with the given stack; or at the break /
+     continue target of the enclosing loop (L = the loop's first instruction, bt / ct relative to it) with the stack empty *)
+  Definition after (r : (list F.sval * F.sval) + P.stop) (room : nat) (s : mstate) (start stop L bt ct : nat)
              (stack : F.sval -> list value) : Prop :=
     exists k s',
       match r with
-      | inr x => forall f, runs (k + f) start [] s = (RErr (cls x) s', defers)
+      | inr (P.StErr x) => forall f, runs (k + f) start [] s = (RErr (cls x) s', defers)
       | inl (rho', v) => vm_inv rho' room s' /\ forall f, runs (k + f) start [] s = runs f stop (stack v) s'
+      | inr (P.StBrk rho') => vm_inv rho' room s' /\ forall f, runs (k + f) start [] s = runs f (L + bt) [] s'
+      | inr (P.StCont rho') => vm_inv rho' room s' /\ forall f, runs (k + f) start [] s = runs f (L + ct) [] s'
       end.
+  Lemma vm_inv_weaken rho r1 r2 s : vm_inv rho r1 s -> r2 <= r1 -> vm_inv rho r2 s.
+  Proof. intros [Hl H] Hr. split; [lia|exact H]. Qed.
+  Lemma after_stop x room room' s start stop stop' L bt ct st st' : room' <= room ->
+    after (inr x) room s start stop L bt ct st -> after (inr x) room' s start stop' L bt ct st'.
+  Proof.
+    intros Hr [k [s' H]]. exists k, s'. destruct x as [x|rho'|rho']; [exact H| |];
+      (destruct H as [Hi H]; split; [exact (vm_inv_weaken _ _ _ _ Hi Hr)|exact H]).
+  Qed.
+
+  (* the code lies inside the loop, before the continue target, which is not after the break target *)
+  Definition inside (lp : bool) (pre : list N) (len L bt ct : nat) : Prop :=
+    lp = true -> L <= length pre /\ length pre + len <= L + ct /\ ct <= bt.
 
   (* what holds of one statement run with source fuel n *)
   Definition stmt_vm (n : nat) : Prop :=
-    forall st rho room s base pre post top r,
-      vm_inv rho (P.ndecls [st] + room) s -> P.wf_stmt top (length rho) st = true ->
-      instr = pre ++ fst (P.stmt_code (length rho) base st) ++ post ->
+    forall st rho room s base pre post top lp L bt ct r,
+      vm_inv rho (P.ndecls [st] + room) s -> P.wf_stmt top lp (length rho) st = true ->
+      instr = pre ++ npatch (length pre - L) bt ct (fst (P.stmt_code (length rho) base st)) ++ post ->
       consts_at base (snd (P.stmt_code (length rho) base st)) ->
       below + P.sneed st <= MAXSTACK ->
+      inside lp pre (length (fst (P.stmt_code (length rho) base st))) L bt ct ->
       P.run_stmt n rho st = Some r ->
-      after r room s (length pre) (length pre + length (fst (P.stmt_code (length rho) base st)))
+      after r room s (length pre) (length pre + length (fst (P.stmt_code (length rho) base st))) L bt ct
             (fun v => if P.is_expr_stmt st then [inj v] else []).
 
   Lemma ndecls_split st r : P.ndecls (st :: r) = P.ndecls [st] + P.ndecls r.
   Proof. destruct st; reflexivity. Qed.
 
-  Lemma vm_list n : stmt_vm n -> forall l rho room s base pre post last top r,
-    l <> [] -> vm_inv rho (P.ndecls l + room) s -> P.wf_stmts top (length rho) l = true ->
-    instr = pre ++ fst (P.pcode (length rho) base l) ++ post ->
-    consts_at base (snd (P.pcode (length rho) base l)) ->
+  Lemma vm_list n : stmt_vm n -> forall l rho room s base pre post last top lp L bt ct r,
+    l <> [] -> vm_inv rho (P.ndecls l + room) s -> P.wf_stmts top lp (length rho) l = true ->
+    instr = pre ++ npatch (length pre - L) bt ct (fst (P.scode (length rho) base l)) ++ post ->
+    consts_at base (snd (P.scode (length rho) base l)) ->
     below + P.max_need l <= MAXSTACK ->
+    inside lp pre (length (fst (P.scode (length rho) base l))) L bt ct ->
     P.run_stmts n rho l last = Some r ->
-    after r room s (length pre) (length pre + length (fst (P.pcode (length rho) base l))) (fun v => [inj v]).
+    after r room s (length pre) (length pre + length (fst (P.scode (length rho) base l))) L bt ct (fun v => [inj v]).
   Proof.
-    intros Hst. induction l as [|st r0 IH]; intros rho room s base pre post last top r Hne Hinv Hwf Hi Hc Hn Hr; [contradiction|].
+    intros Hst. induction l as [|st r0 IH]; intros rho room s base pre post last top lp L bt ct r Hne Hinv Hwf Hi Hc Hn Hin Hr; [contradiction|].
     rewrite PF.wf_stmts_cons in Hwf. apply andb_true_iff in Hwf. destruct Hwf as [Hws Hwr].
     pose proof (PF.sneed_pos st) as Hpos.
     rewrite PF.max_need_cons in Hn. rewrite PF.run_stmts_cons in Hr.
     rewrite ndecls_split, <- Nat.add_assoc in Hinv.
     destruct r0 as [|st2 r2].
     - (* the last statement *)
-      rewrite PF.pcode_single in Hi, Hc |- *.
+      rewrite PF.scode_single in Hi, Hc, Hin |- *.
       destruct (P.stmt_code (length rho) base st) as [cc ks] eqn:Es. cbn [fst snd] in *.
-      assert (Hi' : instr = pre ++ fst (P.stmt_code (length rho) base st) ++ ((if P.is_expr_stmt st then [] else [opNil]) ++ post))
+      set (tail := if P.is_expr_stmt st then [] else I [opNil]) in *.
+      rewrite npatch_app in Hi.
+      assert (Htl : npatch (length pre - L + length cc) bt ct tail = if P.is_expr_stmt st then [] else [opNil])
+        by (unfold tail; destruct (P.is_expr_stmt st); [reflexivity|apply npatch_I]).
+      rewrite Htl in Hi.
+      assert (Hi' : instr = pre ++ npatch (length pre - L) bt ct (fst (P.stmt_code (length rho) base st)) ++
+                            ((if P.is_expr_stmt st then [] else [opNil]) ++ post))
         by (rewrite Es; cbn [fst]; rewrite Hi, <- !app_assoc; reflexivity).
       assert (Hc' : consts_at base (snd (P.stmt_code (length rho) base st))) by (rewrite Es; exact Hc).
+      assert (Hin' : inside lp pre (length (fst (P.stmt_code (length rho) base st))) L bt ct).
+      { rewrite Es. cbn [fst]. intros Hl. destruct (Hin Hl) as [H1 [H2 H3]]. rewrite app_length in H2. repeat split; lia. }
       destruct (P.run_stmt n rho st) as [[[rho1 v1]|x]|] eqn:Er; [| |discriminate].
-      + destruct (Hst st rho (P.ndecls [] + room) s base pre _ top _ Hinv Hws Hi' Hc' ltac:(lia) Er) as [k [s1 [Hinv1 Hrun]]].
+      + destruct (Hst st rho (P.ndecls [] + room) s base pre _ top lp L bt ct _ Hinv Hws Hi' Hc' ltac:(lia) Hin' Er) as [k [s1 [Hinv1 Hrun]]].
         rewrite Es in Hrun. cbn [fst] in Hrun.
         cbn in Hr. inversion Hr; subst r. clear Hr.
+        assert (Hlc : length (npatch (length pre - L) bt ct cc) = length cc) by (apply (npatch_length (length pre - L)); reflexivity).
         destruct (P.is_expr_stmt st) eqn:Ex.
-        * exists k, s1. split; [exact Hinv1|]. intros f. rewrite Hrun, app_nil_r. reflexivity.
+        * exists k, s1. split; [exact Hinv1|]. intros f. rewrite Hrun. unfold tail. rewrite app_nil_r. reflexivity.
         * exists (k + 1), s1. split; [exact Hinv1|]. intros f. rewrite <- Nat.add_assoc, Hrun. cbn [Nat.add].
-          assert (Hx : instr = (pre ++ cc) ++ opNil :: post) by (rewrite Hi, <- !app_assoc; reflexivity).
+          assert (Hx : instr = (pre ++ npatch (length pre - L) bt ct cc) ++ opNil :: post) by (rewrite Hi, <- !app_assoc; reflexivity).
           rewrite (step_push tabs c below frames free defers is_main s1 f (length pre + length cc) [] opNil VNil);
-            [|rewrite Hx, <- app_length; apply at0|auto|cbn [length]; lia].
-          rewrite app_length. cbn [length].
+            [|rewrite Hx, <- Hlc, <- app_length; apply at0|auto|cbn [length]; lia].
+          unfold tail. rewrite app_length, I_length. cbn [length].
           replace (length pre + (length cc + 1)) with (S (length pre + length cc)) by lia.
           rewrite (PF.run_stmt_value n rho st rho1 v1 Er Ex). reflexivity.
-      + destruct (Hst st rho (P.ndecls [] + room) s base pre _ top _ Hinv Hws Hi' Hc' ltac:(lia) Er) as [k [s1 Hrun]].
-        inversion Hr; subst r. exists k, s1. exact Hrun.
+      + inversion Hr; subst r.
+        exact (after_stop _ (P.ndecls [] + room) room _ _ _ _ _ _ _ _ _ ltac:(cbn; lia) (Hst st rho (P.ndecls [] + room) s base pre _ top lp L bt ct _ Hinv Hws Hi' Hc' ltac:(lia) Hin' Er)).
     - (* more statements follow *)
       assert (Hr2 : st2 :: r2 <> []) by discriminate.
-      rewrite PF.pcode_cons2 in Hi, Hc |- *.
+      rewrite PF.scode_cons2 in Hi, Hc, Hin |- *.
       destruct (P.stmt_code (length rho) base st) as [cc ks] eqn:Es.
-      destruct (P.pcode (P.next_k (length rho) st) (base + length ks) (st2 :: r2)) as [cr kr] eqn:Ep. cbn [fst snd] in *.
-      set (pops := if P.is_expr_stmt st then [opPopTop] else []) in *.
-      assert (Hi' : instr = pre ++ fst (P.stmt_code (length rho) base st) ++ (pops ++ cr ++ post))
+      destruct (P.scode (P.next_k (length rho) st) (base + length ks) (st2 :: r2)) as [cr kr] eqn:Ep. cbn [fst snd] in *.
+      set (glue := if P.is_expr_stmt st then I [opPopTop] else []) in *.
+      set (pops := if P.is_expr_stmt st then [opPopTop] else []).
+      rewrite !npatch_app in Hi.
+      assert (Hgl : npatch (length pre - L + length cc) bt ct glue = pops)
+        by (unfold glue, pops; destruct (P.is_expr_stmt st); [apply npatch_I|reflexivity]).
+      rewrite Hgl in Hi.
+      assert (Hlg : length glue = length pops) by (unfold glue, pops; destruct (P.is_expr_stmt st); reflexivity).
+      set (pc := npatch (length pre - L) bt ct cc) in *.
+      assert (Hlc : length pc = length cc) by (apply (npatch_length (length pre - L)); reflexivity).
+      assert (Hi' : instr = pre ++ npatch (length pre - L) bt ct (fst (P.stmt_code (length rho) base st)) ++
+                            (pops ++ npatch (length pre - L + length cc + length glue) bt ct cr ++ post))
         by (rewrite Es; cbn [fst]; rewrite Hi, <- !app_assoc; reflexivity).
       assert (Hc' : consts_at base (snd (P.stmt_code (length rho) base st))) by (rewrite Es; exact (consts_l ks kr base Hc)).
+      assert (Hin' : inside lp pre (length (fst (P.stmt_code (length rho) base st))) L bt ct).
+      { rewrite Es. cbn [fst]. intros Hl. destruct (Hin Hl) as [H1 [H2 H3]]. rewrite !app_length in H2. repeat split; lia. }
       destruct (P.run_stmt n rho st) as [[[rho1 v1]|x]|] eqn:Er; [| |discriminate].
-      2:{ destruct (Hst st rho _ s base pre _ top _ Hinv Hws Hi' Hc' ltac:(lia) Er) as [k [s1 Hrun]].
-          inversion Hr; subst r. exists k, s1. exact Hrun. }
-      destruct (Hst st rho _ s base pre _ top _ Hinv Hws Hi' Hc' ltac:(lia) Er) as [k [s1 [Hinv1 Hrun]]].
+      2:{ inversion Hr; subst r.
+          exact (after_stop _ (P.ndecls (st2 :: r2) + room) room _ _ _ _ _ _ _ _ _ ltac:(lia) (Hst st rho _ s base pre _ top lp L bt ct _ Hinv Hws Hi' Hc' ltac:(lia) Hin' Er)). }
+      destruct (Hst st rho _ s base pre _ top lp L bt ct _ Hinv Hws Hi' Hc' ltac:(lia) Hin' Er) as [k [s1 [Hinv1 Hrun]]].
       rewrite Es in Hrun. cbn [fst] in Hrun.
-      pose proof (PF.run_stmt_length n rho st top rho1 v1 Hws Er) as Hlen1.
-      set (Q := pre ++ cc ++ pops).
+      pose proof (PF.run_stmt_length n rho st top lp _ Hws Er) as Hlen1. cbn [PF.len_ok] in Hlen1.
+      set (Q := pre ++ pc ++ pops).
       assert (HQ : length Q = length pre + length cc + length pops) by (unfold Q; rewrite !app_length; lia).
       rewrite <- Hlen1 in Ep, Hwr.
-      assert (Hi2 : instr = Q ++ fst (P.pcode (length rho1) (base + length ks) (st2 :: r2)) ++ post)
-        by (rewrite Ep; cbn [fst]; rewrite Hi; unfold Q; rewrite <- !app_assoc; reflexivity).
-      assert (Hc2 : consts_at (base + length ks) (snd (P.pcode (length rho1) (base + length ks) (st2 :: r2))))
+      assert (HoffQ : forall (HL : lp = true), length Q - L = length pre - L + length cc + length glue).
+      { intros HL. destruct (Hin HL) as [H1 _]. rewrite HQ, Hlg. lia. }
+      assert (Hcr : npatch (length pre - L + length cc + length glue) bt ct cr = npatch (length Q - L) bt ct cr).
+      { destruct lp eqn:El.
+        - rewrite (HoffQ eq_refl). reflexivity.
+        - (* not inside a loop: no placeholder can occur, the offset is irrelevant *)
+          assert (Hnp : forall o1 o2, npatch o1 bt ct cr = npatch o2 bt ct cr); [|apply Hnp].
+          intros o1 o2.
+          assert (Hno : no_ph cr).
+          { pose proof (scode_no_ph (st2 :: r2) top (length rho1) (base + length ks) Hwr) as H0. rewrite Ep in H0. exact H0. }
+          rewrite !npatch_no_ph by exact Hno. reflexivity. }
+      assert (Hi2 : instr = Q ++ npatch (length Q - L) bt ct (fst (P.scode (length rho1) (base + length ks) (st2 :: r2))) ++ post)
+        by (rewrite Ep; cbn [fst]; rewrite Hi, Hcr; unfold Q; rewrite <- !app_assoc; reflexivity).
+      assert (Hc2 : consts_at (base + length ks) (snd (P.scode (length rho1) (base + length ks) (st2 :: r2))))
         by (rewrite Ep; exact (consts_r ks kr base Hc)).
-      destruct (IH rho1 room s1 (base + length ks) Q post v1 top r Hr2 Hinv1 Hwr Hi2 Hc2 ltac:(lia) Hr) as [k2 [s2 Hrun2]].
+      assert (Hin2 : inside lp Q (length (fst (P.scode (length rho1) (base + length ks) (st2 :: r2)))) L bt ct).
+      { rewrite Ep. cbn [fst]. intros Hl. destruct (Hin Hl) as [H1 [H2 H3]]. rewrite !app_length in H2. rewrite HQ, <- Hlg. repeat split; lia. }
+      destruct (IH rho1 room s1 (base + length ks) Q post v1 top lp L bt ct r Hr2 Hinv1 Hwr Hi2 Hc2 ltac:(lia) Hin2 Hr) as [k2 [s2 Hrun2]].
       rewrite Ep in Hrun2. cbn [fst] in Hrun2.
       assert (Hglue : exists k0, forall f, runs (k0 + f) (length pre) [] s = runs f (length Q) [] s1).
-      { destruct (P.is_expr_stmt st) eqn:Ex; subst pops.
+      { unfold pops in *. destruct (P.is_expr_stmt st) eqn:Ex.
         - exists (k + 1). intros f. rewrite <- Nat.add_assoc, Hrun. cbn [Nat.add].
-          assert (Hx : instr = (pre ++ cc) ++ opPopTop :: (cr ++ post)) by (rewrite Hi, <- !app_assoc; reflexivity).
-          rewrite (step_pop f (length pre + length cc) [] (inj v1) s1) by (rewrite Hx, <- app_length; apply at0).
+          assert (Hx : instr = (pre ++ pc) ++ opPopTop :: (npatch (length pre - L + length cc + length glue) bt ct cr ++ post))
+            by (rewrite Hi, <- !app_assoc; reflexivity).
+          rewrite (step_pop f (length pre + length cc) [] (inj v1) s1) by (rewrite Hx, <- Hlc, <- app_length; apply at0).
           rewrite HQ. cbn [length]. replace (length pre + length cc + 1) with (S (length pre + length cc)) by lia. reflexivity.
         - exists k. intros f. rewrite Hrun, HQ. cbn [length]. rewrite Nat.add_0_r. reflexivity. }
       destruct Hglue as [k0 Hk0].
       exists (k0 + k2), s2.
-      assert (Hpos2 : length pre + length (cc ++ pops ++ cr) = length Q + length cr)
-        by (rewrite HQ, !app_length; lia).
-      destruct r as [[rho2 vv]|xx].
+      assert (Hpos2 : length pre + length (cc ++ glue ++ cr) = length Q + length cr)
+        by (rewrite HQ, !app_length, Hlg; lia).
+      destruct r as [[rho2 vv]|[xx|rho2|rho2]].
       + destruct Hrun2 as [Hinv2 Hrun2]. split; [exact Hinv2|]. intros f.
         rewrite <- Nat.add_assoc, Hk0, Hrun2, Hpos2. reflexivity.
       + intros f. rewrite <- Nat.add_assoc, Hk0. apply Hrun2.
+      + destruct Hrun2 as [Hinv2 Hrun2]. split; [exact Hinv2|]. intros f. rewrite <- Nat.add_assoc, Hk0. apply Hrun2.
+      + destruct Hrun2 as [Hinv2 Hrun2]. split; [exact Hinv2|]. intros f. rewrite <- Nat.add_assoc, Hk0. apply Hrun2.
   Qed.
 
   (* a whole block: Nil for an empty one *)
-  Lemma vm_block n : stmt_vm n -> forall l rho room s base pre post r,
-    vm_inv rho room s -> P.wf_stmts false (length rho) l = true ->
-    instr = pre ++ fst (P.block_code (length rho) base l) ++ post ->
+  Lemma vm_block n : stmt_vm n -> forall l rho room s base pre post lp L bt ct r,
+    vm_inv rho room s -> P.wf_stmts false lp (length rho) l = true ->
+    instr = pre ++ npatch (length pre - L) bt ct (fst (P.block_code (length rho) base l)) ++ post ->
     consts_at base (snd (P.block_code (length rho) base l)) ->
     below + P.max_need l <= MAXSTACK ->
+    inside lp pre (length (fst (P.block_code (length rho) base l))) L bt ct ->
     P.run_stmts n rho l F.VNil = Some r ->
-    after r room s (length pre) (length pre + length (fst (P.block_code (length rho) base l))) (fun v => [inj v]).
+    after r room s (length pre) (length pre + length (fst (P.block_code (length rho) base l))) L bt ct (fun v => [inj v]).
   Proof.
-    intros Hst l rho room s base pre post r Hinv Hwf Hi Hc Hn Hr. destruct l as [|st r0].
+    intros Hst l rho room s base pre post lp L bt ct r Hinv Hwf Hi Hc Hn Hin Hr. destruct l as [|st r0].
     - rewrite PF.block_code_nil in *. cbn [fst snd] in *. cbn in Hr. inversion Hr; subst r.
-      exists 1, s. split; [exact Hinv|]. intros f. cbn [Nat.add length].
+      rewrite npatch_I in Hi.
+      exists 1, s. split; [exact Hinv|]. intros f. cbn [Nat.add length I map].
       rewrite (step_push tabs c below frames free defers is_main s f (length pre) [] opNil VNil);
         [rewrite Nat.add_1_r; reflexivity|rewrite Hi; apply at0|auto|pose proof (PF.max_need_pos []); cbn [length]; lia].
     - assert (Hne : st :: r0 <> []) by discriminate.
       rewrite PF.block_code_cons in *.
-      rewrite <- (Nat.add_0_l room) in Hinv. rewrite <- (PF.wf_false_ndecls _ _ Hwf) in Hinv.
-      exact (vm_list n Hst (st :: r0) rho room s base pre post F.VNil false r Hne Hinv Hwf Hi Hc Hn Hr).
+      rewrite <- (Nat.add_0_l room) in Hinv. rewrite <- (PF.wf_false_ndecls _ _ _ Hwf) in Hinv.
+      exact (vm_list n Hst (st :: r0) rho room s base pre post F.VNil false lp L bt ct r Hne Hinv Hwf Hi Hc Hn Hin Hr).
   Qed.
 
-  (* the condition loop; kk = number of declared variables (constant while the loop runs) *)
+  (* the condition loop; kk = number of declared variables (constant while the loop runs).  Its own code carries no
+     placeholder any more; break and continue of the body end here *)
   Lemma vm_loop cnd b base pre post kk :
-    instr = pre ++ fst (P.stmt_code kk base (P.SWhile cnd b)) ++ post ->
+    instr = pre ++ P.strip (fst (P.stmt_code kk base (P.SWhile cnd b))) ++ post ->
     consts_at base (snd (P.stmt_code kk base (P.SWhile cnd b))) ->
     below + P.sneed (P.SWhile cnd b) <= MAXSTACK ->
-    F.wf kk cnd = true -> P.wf_stmts false kk b = true ->
+    F.wf kk cnd = true -> P.wf_stmts false true kk b = true ->
     forall m, (forall j, j < m -> stmt_vm j) ->
-    forall rho room s r, length rho = kk -> vm_inv rho room s ->
+    forall rho room s r L bt ct, length rho = kk -> vm_inv rho room s ->
     P.run_stmt m rho (P.SWhile cnd b) = Some r ->
-    after r room s (length pre) (length pre + length (fst (P.stmt_code kk base (P.SWhile cnd b)))) (fun _ => []).
+    PF.no_ctl r /\
+    after r room s (length pre) (length pre + length (fst (P.stmt_code kk base (P.SWhile cnd b)))) L bt ct (fun _ => []).
   Proof.
     intros Hi Hc Hn Hwc Hwb.
     rewrite PF.code_SWhile in *. rewrite PF.sneed_SWhile in Hn.
     destruct (F.cexp base cnd) as [cc kc] eqn:Ec.
-    destruct (P.block_code kk (base + length kc) b) as [cb kb] eqn:Eb. cbn [fst snd] in *.
-    set (off := (F.nlenN cb + 6)%N) in *. set (jb := (F.nlenN cc + 2 + F.nlenN cb + 1)%N) in *.
-    assert (Hoff : N.to_nat off = length cb + 6) by (unfold off, F.nlenN; rewrite N2Nat.inj_add, Nat2N.id; reflexivity).
-    assert (Hjb : N.to_nat jb = length cc + 2 + length cb + 1)
-      by (unfold jb, F.nlenN; rewrite !N2Nat.inj_add, !Nat2N.id; reflexivity).
-    assert (Hlen : length (cc ++ [opPopJumpForwardIfFalse; off] ++ cb ++ [opPopTop; opJumpBackward; jb; opNop]) =
-                   length cc + 2 + length cb + 4) by (rewrite !app_length; cbn [length]; lia).
+    destruct (P.block_code kk (base + length kc) b) as [cb kb] eqn:Eb. cbv zeta in *. cbn [fst snd] in *.
+    set (inner := I cc ++ I [opPopJumpForwardIfFalse; (nlen cb + 6)%N] ++ cb ++ I [opPopTop]) in *.
+    set (len := length cc + 2 + length cb + 1).
+    assert (Hlen : length inner = len) by (unfold inner, len; rewrite !app_length, !I_length; cbn [length]; lia).
+    assert (Hjb : nlen inner = N.of_nat len) by (unfold nlen; rewrite Hlen; reflexivity).
+    rewrite Hjb in *.
+    replace (N.of_nat len + 2)%N with (N.of_nat (len + 2)) in * by lia.
+    rewrite strip_app, strip_I, (strip_patch 0 (len + 2) len inner 0%N eq_refl) in Hi.
+    unfold inner in Hi. rewrite !npatch_app, !npatch_I in Hi. rewrite !I_length in Hi. cbn [length Nat.add] in Hi.
+    set (pb := npatch (length cc + 2) (len + 2) len cb) in *.
+    assert (Hlpb : length pb = length cb) by (apply (npatch_length (length cc + 2)); reflexivity).
+    set (off := (nlen cb + 6)%N) in *. set (jb := N.of_nat len) in *.
+    assert (Hoff : N.to_nat off = length cb + 6) by (unfold off, nlen; rewrite N2Nat.inj_add, Nat2N.id; reflexivity).
+    assert (Hjbn : N.to_nat jb = len) by (unfold jb; apply Nat2N.id).
+    assert (Hcodelen : length (patch 0 (N.of_nat (len + 2)) jb inner ++ I [opJumpBackward; jb; opNop]) = len + 3)
+      by (rewrite app_length, patch_length, Hlen, I_length; reflexivity).
     set (Pp := pre ++ cc).
     assert (HP : length Pp = length pre + length cc) by (unfold Pp; apply app_length).
     set (Q := Pp ++ [opPopJumpForwardIfFalse; off]).
     assert (HQ : length Q = length Pp + 2) by (unfold Q; rewrite app_length; reflexivity).
-    set (R := Q ++ cb).
-    assert (HR : length R = length Q + length cb) by (unfold R; apply app_length).
-    assert (Hic : instr = pre ++ fst (F.cexp base cnd) ++ ([opPopJumpForwardIfFalse; off] ++ cb ++ [opPopTop; opJumpBackward; jb; opNop] ++ post))
+    set (R := Q ++ pb).
+    assert (HR : length R = length Q + length cb) by (unfold R; rewrite app_length, Hlpb; reflexivity).
+    assert (Hic : instr = pre ++ fst (F.cexp base cnd) ++ ([opPopJumpForwardIfFalse; off] ++ pb ++ [opPopTop] ++ [opJumpBackward; jb; opNop] ++ post))
       by (rewrite Ec; cbn [fst]; rewrite Hi, <- !app_assoc; reflexivity).
     assert (Hkc : consts_at base (snd (F.cexp base cnd))) by (rewrite Ec; exact (consts_l kc kb base Hc)).
-    assert (Hc1 : instr = Pp ++ opPopJumpForwardIfFalse :: off :: (cb ++ [opPopTop; opJumpBackward; jb; opNop] ++ post))
+    assert (Hc1 : instr = Pp ++ opPopJumpForwardIfFalse :: off :: (pb ++ [opPopTop] ++ [opJumpBackward; jb; opNop] ++ post))
       by (rewrite Hi; unfold Pp; rewrite <- !app_assoc; reflexivity).
-    assert (Hib : instr = Q ++ fst (P.block_code kk (base + length kc) b) ++ ([opPopTop; opJumpBackward; jb; opNop] ++ post))
-      by (rewrite Eb; cbn [fst]; rewrite Hi; unfold Q, Pp; rewrite <- !app_assoc; reflexivity).
+    assert (Hib : instr = Q ++ npatch (length Q - length pre) (len + 2) len (fst (P.block_code kk (base + length kc) b)) ++
+                          ([opPopTop] ++ [opJumpBackward; jb; opNop] ++ post)).
+    { rewrite Eb. cbn [fst]. replace (length Q - length pre) with (length cc + 2) by (rewrite HQ, HP; lia).
+      fold pb. rewrite Hi. unfold Q, Pp. rewrite <- !app_assoc. reflexivity. }
     assert (Hkb : consts_at (base + length kc) (snd (P.block_code kk (base + length kc) b)))
       by (rewrite Eb; exact (consts_r kc kb base Hc)).
+    assert (Hinb : inside true Q (length (fst (P.block_code kk (base + length kc) b))) (length pre) (len + 2) len).
+    { rewrite Eb. cbn [fst]. intros _. rewrite HQ, HP. unfold len. repeat split; lia. }
     assert (Hpop : instr = R ++ opPopTop :: (opJumpBackward :: jb :: opNop :: post))
       by (rewrite Hi; unfold R, Q, Pp; rewrite <- !app_assoc; reflexivity).
     assert (Hjmp : instr = (R ++ [opPopTop]) ++ opJumpBackward :: jb :: (opNop :: post))
       by (rewrite Hi; unfold R, Q, Pp; rewrite <- !app_assoc; reflexivity).
     assert (HR1 : length (R ++ [opPopTop]) = S (length R)) by (rewrite app_length; cbn [length]; lia).
-    induction m as [|m IH]; intros Hst rho room s r Hkk Hinv Hr; [discriminate|].
+    assert (Hnop : instr = (R ++ [opPopTop; opJumpBackward; jb]) ++ opNop :: post)
+      by (rewrite Hi; unfold R, Q, Pp; rewrite <- !app_assoc; reflexivity).
+    assert (HR3 : length (R ++ [opPopTop; opJumpBackward; jb]) = length R + 3) by (rewrite app_length; reflexivity).
+    assert (HposJ : S (length R) = length pre + len) by (rewrite HR, HQ, HP; unfold len; lia).
+    induction m as [|m IH]; intros Hst rho room s r L bt ct Hkk Hinv Hr; [discriminate|].
     rewrite PF.run_SWhile in Hr.
     pose proof (vm_inv_globals_ok rho room s Hinv) as Hg.
     rewrite <- Hkk in Hwc.
     destruct (vm_scalar tabs c below frames free defers is_main s rho Hg cnd base pre _ [] Hwc Hic Hkc ltac:(cbn [length]; lia)) as [n1 Hr1].
     rewrite Ec in Hr1. cbn [fst] in Hr1. unfold outcome_of in Hr1. rewrite <- HP in Hr1.
     destruct (F.sev rho cnd) as [vc|xc].
-    2:{ inversion Hr; subst r. exists n1, s. exact Hr1. }
+    2:{ inversion Hr; subst r. split; [exact Logic.I|]. exists n1, s. exact Hr1. }
     assert (Hs1 : forall f, runs (S f) (length Pp) [inj vc] s =
                             runs f (if F.struthy vc then length Pp + 2 else length Pp + (length cb + 6)) [] s).
     { intros f.
@@ -299,78 +372,99 @@ Section VarVM.
       destruct (F.struthy vc); reflexivity. }
     destruct (F.struthy vc) eqn:Etr.
     2:{ (* the loop ends *)
-        inversion Hr; subst r. exists (n1 + 1), s. split; [exact Hinv|]. intros f.
-        rewrite <- Nat.add_assoc, Hr1. cbn [Nat.add]. rewrite Hs1, Hlen, HP.
-        replace (length pre + length cc + (length cb + 6)) with (length pre + (length cc + 2 + length cb + 4)) by lia.
+        inversion Hr; subst r. split; [exact Logic.I|]. exists (n1 + 1), s. split; [exact Hinv|]. intros f.
+        rewrite <- Nat.add_assoc, Hr1. cbn [Nat.add]. rewrite Hs1, Hcodelen, HP. unfold len.
+        replace (length pre + length cc + (length cb + 6)) with (length pre + (length cc + 2 + length cb + 1 + 3)) by lia.
         reflexivity. }
-    (* one round: body, PopTop, JumpBackward *)
-    rewrite <- Hkk in Hwb, Hib, Hkb.
-    destruct (P.run_stmts m rho b F.VNil) as [[[rho1 v1]|xb]|] eqn:Erb; [| |discriminate].
-    - destruct (vm_block m (Hst m ltac:(lia)) b rho room s (base + length kc) Q _ _ Hinv Hwb Hib Hkb ltac:(lia) Erb)
+    (* one round *)
+    rewrite <- Hkk in Hwb, Hib, Hkb, Hinb.
+    (* back at the start of the loop with the variables rho1 *)
+    assert (Hagain : forall rho1 s1 k0, length rho1 = length rho -> vm_inv rho1 room s1 ->
+              (forall f, runs (k0 + f) (length pre) [] s = runs f (length pre) [] s1) ->
+              P.run_stmt m rho1 (P.SWhile cnd b) = Some r ->
+              PF.no_ctl r /\
+              after r room s (length pre) (length pre + length (patch 0 (N.of_nat (len + 2)) jb inner ++ I [opJumpBackward; jb; opNop]))
+                    L bt ct (fun _ => [])).
+    { intros rho1 s1 k0 Hl1 Hinv1 Hround Hr'.
+      destruct (IH ltac:(intros j Hj; apply Hst; lia) rho1 room s1 r L bt ct ltac:(lia) Hinv1 Hr') as [Hno [n3 [s3 Hr3]]].
+      split; [exact Hno|]. exists (k0 + n3), s3.
+      destruct r as [[rho3 v3]|[x3|rho3|rho3]]; cbn [PF.no_ctl] in Hno; try contradiction.
+      - destruct Hr3 as [Hinv3 Hr3]. split; [exact Hinv3|]. intros f. rewrite <- Nat.add_assoc, Hround. apply Hr3.
+      - intros f. rewrite <- Nat.add_assoc, Hround. apply Hr3. }
+    assert (Hjump : forall f s1, runs (S f) (S (length R)) [] s1 = runs f (length pre) [] s1).
+    { intros f s1. rewrite (step_jumpback f (S (length R)) [] s1) by (rewrite Hjmp, <- HR1; apply at0).
+      assert (E : nth (S (length R) + 1) instr 0%N = jb) by (rewrite Hjmp, <- HR1; apply at1).
+      rewrite E, Hjbn, HposJ. replace (length pre + len - len) with (length pre) by lia. reflexivity. }
+    destruct (P.run_stmts m rho b F.VNil) as [[[rho1 v1]|[xb|rho1|rho1]]|] eqn:Erb; [| | | |discriminate].
+    - destruct (vm_block m (Hst m ltac:(lia)) b rho room s (base + length kc) Q _ true (length pre) (len + 2) len _ Hinv Hwb Hib Hkb ltac:(lia) Hinb Erb)
         as [n2 [s1 [Hinv1 Hr2]]].
       rewrite Hkk, Eb in Hr2. cbn [fst] in Hr2.
-      pose proof (PF.run_stmts_length m b rho F.VNil rho1 v1 Hwb Erb) as Hl1.
-      destruct (IH ltac:(intros j Hj; apply Hst; lia) rho1 room s1 r ltac:(lia) Hinv1 Hr) as [n3 [s3 Hr3]].
-      assert (Hround : forall f, runs (n1 + (1 + (n2 + (1 + (1 + f))))) (length pre) [] s = runs f (length pre) [] s1).
-      { intros f. rewrite Hr1. replace (1 + (n2 + (1 + (1 + f)))) with (S (n2 + (S (S f)))) by lia.
-        rewrite Hs1, <- HQ, Hr2, <- HR.
-        rewrite (step_pop (S f) (length R) [] (inj v1) s1) by (rewrite Hpop; apply at0).
-        rewrite (step_jumpback f (S (length R)) [] s1) by (rewrite Hjmp, <- HR1; apply at0).
-        assert (E : nth (S (length R) + 1) instr 0%N = jb) by (rewrite Hjmp, <- HR1; apply at1).
-        rewrite E, Hjb, HR, HQ, HP.
-        replace (S (length pre + length cc + 2 + length cb) - (length cc + 2 + length cb + 1)) with (length pre) by lia.
-        reflexivity. }
-      exists (n1 + (1 + (n2 + (1 + (1 + n3))))), s3.
-      destruct r as [[rho3 v3]|x3].
-      + destruct Hr3 as [Hinv3 Hr3]. split; [exact Hinv3|]. intros f.
-        replace (n1 + (1 + (n2 + (1 + (1 + n3)))) + f) with (n1 + (1 + (n2 + (1 + (1 + (n3 + f)))))) by lia.
-        rewrite Hround. apply Hr3.
-      + intros f. replace (n1 + (1 + (n2 + (1 + (1 + n3)))) + f) with (n1 + (1 + (n2 + (1 + (1 + (n3 + f)))))) by lia.
-        rewrite Hround. apply Hr3.
-    - destruct (vm_block m (Hst m ltac:(lia)) b rho room s (base + length kc) Q _ _ Hinv Hwb Hib Hkb ltac:(lia) Erb)
+      pose proof (PF.run_stmts_length m b rho F.VNil true _ Hwb Erb) as Hl1. cbn [PF.lens_ok] in Hl1.
+      apply (Hagain rho1 s1 (n1 + (1 + (n2 + (1 + 1)))) Hl1 Hinv1); [|exact Hr].
+      intros f. rewrite <- !Nat.add_assoc, Hr1. replace (1 + (n2 + (1 + (1 + f)))) with (S (n2 + (S (S f)))) by lia.
+      rewrite Hs1, <- HQ, Hr2, <- HR.
+      rewrite (step_pop (S f) (length R) [] (inj v1) s1) by (rewrite Hpop; apply at0).
+      apply Hjump.
+    - destruct (vm_block m (Hst m ltac:(lia)) b rho room s (base + length kc) Q _ true (length pre) (len + 2) len _ Hinv Hwb Hib Hkb ltac:(lia) Hinb Erb)
         as [n2 [s1 Hr2]].
-      inversion Hr; subst r. exists (n1 + (1 + n2)), s1. intros f.
+      inversion Hr; subst r. split; [exact Logic.I|]. exists (n1 + (1 + n2)), s1. intros f.
       rewrite <- Nat.add_assoc, Hr1. replace (1 + n2 + f) with (S (n2 + f)) by lia. rewrite Hs1, <- HQ. apply Hr2.
+    - (* break: on to the Nop behind the loop *)
+      destruct (vm_block m (Hst m ltac:(lia)) b rho room s (base + length kc) Q _ true (length pre) (len + 2) len _ Hinv Hwb Hib Hkb ltac:(lia) Hinb Erb)
+        as [n2 [s1 [Hinv1 Hr2]]].
+      inversion Hr; subst r. split; [exact Logic.I|]. exists (n1 + (1 + (n2 + 1))), s1. split; [exact Hinv1|]. intros f.
+      rewrite <- !Nat.add_assoc, Hr1. replace (1 + (n2 + (1 + f))) with (S (n2 + S f)) by lia. rewrite Hs1, <- HQ, Hr2.
+      replace (length pre + (len + 2)) with (length R + 3) by lia.
+      rewrite (step_nop tabs c below frames free defers is_main s1 f (length R + 3) []) by (rewrite Hnop, <- HR3; apply at0).
+      rewrite Hcodelen. replace (S (length R + 3)) with (length pre + (len + 3)) by lia. reflexivity.
+    - (* continue: on to the JumpBackward *)
+      destruct (vm_block m (Hst m ltac:(lia)) b rho room s (base + length kc) Q _ true (length pre) (len + 2) len _ Hinv Hwb Hib Hkb ltac:(lia) Hinb Erb)
+        as [n2 [s1 [Hinv1 Hr2]]].
+      pose proof (PF.run_stmts_length m b rho F.VNil true _ Hwb Erb) as Hl1. cbn [PF.lens_ok] in Hl1.
+      apply (Hagain rho1 s1 (n1 + (1 + (n2 + 1))) Hl1 Hinv1); [|exact Hr].
+      intros f. rewrite <- !Nat.add_assoc, Hr1. replace (1 + (n2 + (1 + f))) with (S (n2 + S f)) by lia.
+      rewrite Hs1, <- HQ, Hr2. rewrite <- HposJ. apply Hjump.
   Qed.
 
   Theorem vm_stmt : forall n, stmt_vm n.
   Proof.
     induction n as [n IH] using lt_wf_ind.
-    destruct n as [|n]; [intros st rho room s base pre post top r _ _ _ _ _ Hr; discriminate|].
-    intros st rho room s base pre post top r Hinv Hwf Hi Hc Hn Hr.
-    destruct st as [e|i e|e|cnd t el|cnd t|cnd b].
+    destruct n as [|n]; [intros st rho room s base pre post top lp L bt ct r _ _ _ _ _ _ Hr; discriminate|].
+    intros st rho room s base pre post top lp L bt ct r Hinv Hwf Hi Hc Hn Hin Hr.
+    destruct st as [e|i e|e|cnd t el|cnd t|cnd b| |].
     - (* x := e *)
       cbn [P.stmt_code P.wf_stmt P.is_expr_stmt P.run_stmt P.sneed P.ndecls Nat.add] in *.
       apply andb_true_iff in Hwf. destruct Hwf as [_ Hwf].
-      destruct (F.cexp base e) as [ce ke] eqn:Ee. cbn [fst snd] in *.
+      destruct (F.cexp base e) as [ce ke] eqn:Ee. cbn [fst snd] in *. rewrite npatch_I in Hi. rewrite I_length.
       assert (Hi' : instr = pre ++ fst (F.cexp base e) ++ [opStoreGlobal; N.of_nat (length rho)] ++ post)
         by (rewrite Ee; cbn [fst]; rewrite Hi, <- !app_assoc; reflexivity).
       assert (Hc' : consts_at base (snd (F.cexp base e))) by (rewrite Ee; exact Hc).
       destruct (vm_store rho _ s e base pre post (length rho) Hinv Hwf Hi' Hc' Hn) as [k Hk].
       rewrite Ee in Hk. cbn [fst] in Hk.
-      destruct (F.sev rho e) as [v|x]; inversion Hr; subst r.
+      destruct (F.sev rho e) as [v|x]; cbn [P.of_sev] in Hr; inversion Hr; subst r.
       + exists k, (upd_globals s (lset (globals s) (length rho) (inj v))).
         split; [apply vm_inv_decl; exact Hinv|exact Hk].
       + exists k, s. exact Hk.
     - (* x = e *)
       cbn [P.stmt_code P.wf_stmt P.is_expr_stmt P.run_stmt P.sneed P.ndecls Nat.add] in *.
       apply andb_true_iff in Hwf. destruct Hwf as [Hilt Hwf]. apply Nat.ltb_lt in Hilt.
-      destruct (F.cexp base e) as [ce ke] eqn:Ee. cbn [fst snd] in *.
+      destruct (F.cexp base e) as [ce ke] eqn:Ee. cbn [fst snd] in *. rewrite npatch_I in Hi. rewrite I_length.
       assert (Hi' : instr = pre ++ fst (F.cexp base e) ++ [opStoreGlobal; N.of_nat i] ++ post)
         by (rewrite Ee; cbn [fst]; rewrite Hi, <- !app_assoc; reflexivity).
       assert (Hc' : consts_at base (snd (F.cexp base e))) by (rewrite Ee; exact Hc).
       destruct (vm_store rho _ s e base pre post i Hinv Hwf Hi' Hc' Hn) as [k Hk].
       rewrite Ee in Hk. cbn [fst] in Hk.
-      destruct (F.sev rho e) as [v|x]; inversion Hr; subst r.
+      destruct (F.sev rho e) as [v|x]; cbn [P.of_sev] in Hr; inversion Hr; subst r.
       + exists k, (upd_globals s (lset (globals s) i (inj v))).
         split; [apply vm_inv_set; assumption|exact Hk].
       + exists k, s. exact Hk.
     - (* e *)
-      cbn [P.stmt_code P.wf_stmt P.is_expr_stmt P.run_stmt P.sneed P.ndecls Nat.add] in *.
+      cbn [P.stmt_code P.islots P.wf_stmt P.is_expr_stmt P.run_stmt P.sneed P.ndecls Nat.add fst snd] in *.
+      rewrite npatch_I in Hi. rewrite I_length.
       pose proof (vm_inv_globals_ok rho _ s Hinv) as Hg.
       destruct (vm_scalar tabs c below frames free defers is_main s rho Hg e base pre post [] Hwf Hi Hc ltac:(cbn [length]; lia)) as [k Hk].
       unfold outcome_of in Hk. exists k, s.
-      destruct (F.sev rho e) as [v|x]; inversion Hr; subst r; [split; [exact Hinv|]|]; exact Hk.
+      destruct (F.sev rho e) as [v|x]; cbn [P.of_sev] in Hr; inversion Hr; subst r; [split; [exact Hinv|]|]; exact Hk.
     - (* if *)
       pose proof (vm_inv_globals_ok rho _ s Hinv) as Hg.
       rewrite PF.wf_SIf in Hwf. apply andb_true_iff in Hwf. destruct Hwf as [Hwct Hwe].
@@ -378,15 +472,22 @@ Section VarVM.
       rewrite PF.code_SIf in *. rewrite PF.sneed_SIf in Hn. rewrite PF.run_SIf in Hr.
       cbn [P.ndecls Nat.add P.is_expr_stmt] in *.
       destruct (F.cexp base cnd) as [cc kc] eqn:Ec.
-      destruct (P.block_code (length rho) (base + length kc) t) as [ct kt] eqn:Et.
-      destruct (P.block_code (length rho) (base + length kc + length kt) el) as [ce ke] eqn:Ee. cbn [fst snd] in *.
-      set (offF := (F.nlenN ct + 4)%N) in *. set (offJ := (F.nlenN ce + 2)%N) in *.
-      assert (HoffF : N.to_nat offF = length ct + 4) by (unfold offF, F.nlenN; rewrite N2Nat.inj_add, Nat2N.id; reflexivity).
-      assert (HoffJ : N.to_nat offJ = length ce + 2) by (unfold offJ, F.nlenN; rewrite N2Nat.inj_add, Nat2N.id; reflexivity).
-      assert (Hlen : length (cc ++ [opPopJumpForwardIfFalse; offF] ++ ct ++ [opJumpForward; offJ] ++ ce) =
-                     length cc + 2 + length ct + 2 + length ce) by (rewrite !app_length; cbn [length]; lia).
+      destruct (P.block_code (length rho) (base + length kc) t) as [ct0 kt] eqn:Et.
+      destruct (P.block_code (length rho) (base + length kc + length kt) el) as [ce0 ke] eqn:Ee. cbn [fst snd] in *.
+      set (o := length pre - L) in *.
+      rewrite !npatch_app, !npatch_I, !I_length in Hi. cbn [length] in Hi.
+      set (pt := npatch (o + length cc + 2) bt ct ct0) in *.
+      set (pe := npatch (o + length cc + 2 + length ct0 + 2) bt ct ce0) in *.
+      assert (Hlpt : length pt = length ct0) by (apply (npatch_length (o + length cc + 2)); reflexivity).
+      assert (Hlpe : length pe = length ce0) by (apply (npatch_length (o + length cc + 2 + length ct0 + 2)); reflexivity).
+      set (offF := (nlen ct0 + 4)%N) in *. set (offJ := (nlen ce0 + 2)%N) in *.
+      assert (HoffF : N.to_nat offF = length ct0 + 4) by (unfold offF, nlen; rewrite N2Nat.inj_add, Nat2N.id; reflexivity).
+      assert (HoffJ : N.to_nat offJ = length ce0 + 2) by (unfold offJ, nlen; rewrite N2Nat.inj_add, Nat2N.id; reflexivity).
+      assert (Hlen : length (I cc ++ I [opPopJumpForwardIfFalse; offF] ++ ct0 ++ I [opJumpForward; offJ] ++ ce0) =
+                     length cc + 2 + length ct0 + 2 + length ce0) by (rewrite !app_length, !I_length; cbn [length]; lia).
+      rewrite Hlen in Hin |- *.
       (* the condition *)
-      assert (Hic : instr = pre ++ fst (F.cexp base cnd) ++ ([opPopJumpForwardIfFalse; offF] ++ ct ++ [opJumpForward; offJ] ++ ce ++ post))
+      assert (Hic : instr = pre ++ fst (F.cexp base cnd) ++ ([opPopJumpForwardIfFalse; offF] ++ pt ++ [opJumpForward; offJ] ++ pe ++ post))
         by (rewrite Ec; cbn [fst]; rewrite Hi, <- !app_assoc; reflexivity).
       assert (Hkc : consts_at base (snd (F.cexp base cnd))) by (rewrite Ec; exact (consts_l kc (kt ++ ke) base Hc)).
       destruct (vm_scalar tabs c below frames free defers is_main s rho Hg cnd base pre _ [] Hwc Hic Hkc ltac:(cbn [length]; lia)) as [n1 Hr1].
@@ -395,10 +496,10 @@ Section VarVM.
       2:{ inversion Hr; subst r. exists n1, s. exact Hr1. }
       set (Pp := pre ++ cc).
       assert (HP : length Pp = length pre + length cc) by (unfold Pp; apply app_length).
-      assert (Hc1 : instr = Pp ++ opPopJumpForwardIfFalse :: offF :: (ct ++ [opJumpForward; offJ] ++ ce ++ post))
+      assert (Hc1 : instr = Pp ++ opPopJumpForwardIfFalse :: offF :: (pt ++ [opJumpForward; offJ] ++ pe ++ post))
         by (rewrite Hi; unfold Pp; rewrite <- !app_assoc; reflexivity).
       assert (Hs1 : forall f, runs (S f) (length Pp) [inj vc] s =
-                              runs f (if F.struthy vc then length Pp + 2 else length Pp + (length ct + 4)) [] s).
+                              runs f (if F.struthy vc then length Pp + 2 else length Pp + (length ct0 + 4)) [] s).
       { intros f.
         rewrite (step_popjump tabs c below frames free defers is_main s f (length Pp) [] (inj vc) (F.struthy vc) opPopJumpForwardIfFalse);
           [|rewrite Hc1; apply at0|auto|apply truthy_inj].
@@ -410,56 +511,75 @@ Section VarVM.
       + (* then-branch, followed by the jump over the else-branch *)
         set (Q := Pp ++ [opPopJumpForwardIfFalse; offF]).
         assert (HQ : length Q = length Pp + 2) by (unfold Q; rewrite app_length; reflexivity).
-        assert (Hit : instr = Q ++ fst (P.block_code (length rho) (base + length kc) t) ++ ([opJumpForward; offJ] ++ ce ++ post))
-          by (rewrite Et; cbn [fst]; rewrite Hi; unfold Q, Pp; rewrite <- !app_assoc; reflexivity).
+        assert (Hpt : pt = npatch (length Q - L) bt ct ct0).
+        { unfold pt. apply (npatch_off lp).
+          - intros Hl. destruct (Hin Hl) as [H1 _]. rewrite HQ, HP. unfold o. lia.
+          - intros Hl. subst lp. pose proof (block_code_no_ph t (length rho) (base + length kc) Hwt) as H0. rewrite Et in H0. exact H0. }
+        assert (Hit : instr = Q ++ npatch (length Q - L) bt ct (fst (P.block_code (length rho) (base + length kc) t)) ++ ([opJumpForward; offJ] ++ pe ++ post))
+          by (rewrite Et; cbn [fst]; rewrite <- Hpt, Hi; unfold Q, Pp; rewrite <- !app_assoc; reflexivity).
         assert (Hkt : consts_at (base + length kc) (snd (P.block_code (length rho) (base + length kc) t)))
           by (rewrite Et; exact (consts_l kt ke _ Hkrest)).
-        destruct (vm_block n (IH n ltac:(lia)) t rho room s (base + length kc) Q _ r Hinv Hwt Hit Hkt ltac:(lia) Hr) as [n2 [s2 Hr2]].
+        assert (Hint : inside lp Q (length (fst (P.block_code (length rho) (base + length kc) t))) L bt ct).
+        { rewrite Et. cbn [fst]. intros Hl. destruct (Hin Hl) as [H1 [H2 H3]]. rewrite HQ, HP. repeat split; lia. }
+        destruct (vm_block n (IH n ltac:(lia)) t rho room s (base + length kc) Q _ lp L bt ct r Hinv Hwt Hit Hkt ltac:(lia) Hint Hr) as [n2 [s2 Hr2]].
         rewrite Et in Hr2. cbn [fst] in Hr2. rewrite HQ in Hr2.
-        destruct r as [[rho' v]|x].
+        assert (Hpre : forall f, runs (n1 + (1 + (n2 + f))) (length pre) [] s = runs (n2 + f) (length Pp + 2) [] s).
+        { intros f. rewrite Hr1, <- HP. replace (1 + (n2 + f)) with (S (n2 + f)) by lia. apply Hs1. }
+        destruct r as [[rho' v]|[x|rho'|rho']].
         * destruct Hr2 as [Hinv2 Hr2].
           exists (n1 + (1 + (n2 + 1))), s2. split; [exact Hinv2|]. intros f.
-          rewrite <- Nat.add_assoc, Hr1, <- HP.
-          replace (1 + (n2 + 1) + f) with (S (n2 + S f)) by lia. rewrite Hs1, Hr2.
-          assert (Hj : instr = (Q ++ ct) ++ opJumpForward :: offJ :: (ce ++ post))
+          rewrite <- !Nat.add_assoc, Hpre, Hr2. cbn [Nat.add].
+          assert (Hj : instr = (Q ++ pt) ++ opJumpForward :: offJ :: (pe ++ post))
             by (rewrite Hi; unfold Q, Pp; rewrite <- !app_assoc; reflexivity).
-          assert (HQt : length (Q ++ ct) = length Pp + 2 + length ct) by (rewrite app_length, HQ; reflexivity).
-          rewrite (step_jump tabs c below frames free defers is_main s2 f (length Pp + 2 + length ct) [inj v]); [|rewrite Hj, <- HQt; apply at0].
-          assert (E : nth (length Pp + 2 + length ct + 1) instr 0%N = offJ) by (rewrite Hj, <- HQt; apply at1).
-          rewrite E, HoffJ, Hlen.
-          replace (length pre + (length cc + 2 + length ct + 2 + length ce)) with (length Pp + 2 + length ct + (length ce + 2)) by lia.
-          reflexivity.
-        * exists (n1 + (1 + n2)), s2. intros f.
-          rewrite <- Nat.add_assoc, Hr1, <- HP. replace (1 + n2 + f) with (S (n2 + f)) by lia. rewrite Hs1. exact (Hr2 f).
+          assert (HQt : length (Q ++ pt) = length Pp + 2 + length ct0) by (rewrite app_length, HQ, Hlpt; reflexivity).
+          rewrite (step_jump tabs c below frames free defers is_main s2 f (length Pp + 2 + length ct0) [inj v]); [|rewrite Hj, <- HQt; apply at0].
+          assert (E : nth (length Pp + 2 + length ct0 + 1) instr 0%N = offJ) by (rewrite Hj, <- HQt; apply at1).
+          rewrite E, HoffJ.
+          f_equal; rewrite ?HP; cbn [length]; lia.
+        * exists (n1 + (1 + n2)), s2. intros f. rewrite <- !Nat.add_assoc, Hpre. exact (Hr2 f).
+        * destruct Hr2 as [Hinv2 Hr2]. exists (n1 + (1 + n2)), s2. split; [exact Hinv2|]. intros f. rewrite <- !Nat.add_assoc, Hpre. exact (Hr2 f).
+        * destruct Hr2 as [Hinv2 Hr2]. exists (n1 + (1 + n2)), s2. split; [exact Hinv2|]. intros f. rewrite <- !Nat.add_assoc, Hpre. exact (Hr2 f).
       + (* else-branch *)
-        set (Q := Pp ++ [opPopJumpForwardIfFalse; offF] ++ ct ++ [opJumpForward; offJ]).
-        assert (HQ : length Q = length Pp + (length ct + 4)) by (unfold Q; rewrite !app_length; cbn [length]; lia).
-        assert (Hie : instr = Q ++ fst (P.block_code (length rho) (base + length kc + length kt) el) ++ post)
-          by (rewrite Ee; cbn [fst]; rewrite Hi; unfold Q, Pp; rewrite <- !app_assoc; reflexivity).
+        set (Q := Pp ++ [opPopJumpForwardIfFalse; offF] ++ pt ++ [opJumpForward; offJ]).
+        assert (HQ : length Q = length Pp + (length ct0 + 4)) by (unfold Q; rewrite !app_length, Hlpt; cbn [length]; lia).
+        assert (Hpe : pe = npatch (length Q - L) bt ct ce0).
+        { unfold pe. apply (npatch_off lp).
+          - intros Hl. destruct (Hin Hl) as [H1 _]. rewrite HQ, HP. unfold o. lia.
+          - intros Hl. subst lp. pose proof (block_code_no_ph el (length rho) (base + length kc + length kt) Hwe) as H0. rewrite Ee in H0. exact H0. }
+        assert (Hie : instr = Q ++ npatch (length Q - L) bt ct (fst (P.block_code (length rho) (base + length kc + length kt) el)) ++ post)
+          by (rewrite Ee; cbn [fst]; rewrite <- Hpe, Hi; unfold Q, Pp; rewrite <- !app_assoc; reflexivity).
         assert (Hke : consts_at (base + length kc + length kt) (snd (P.block_code (length rho) (base + length kc + length kt) el)))
           by (rewrite Ee; exact (consts_r kt ke _ Hkrest)).
-        destruct (vm_block n (IH n ltac:(lia)) el rho room s (base + length kc + length kt) Q post r Hinv Hwe Hie Hke ltac:(lia) Hr) as [n2 [s2 Hr2]].
+        assert (Hine : inside lp Q (length (fst (P.block_code (length rho) (base + length kc + length kt) el))) L bt ct).
+        { rewrite Ee. cbn [fst]. intros Hl. destruct (Hin Hl) as [H1 [H2 H3]]. rewrite HQ, HP. repeat split; lia. }
+        destruct (vm_block n (IH n ltac:(lia)) el rho room s (base + length kc + length kt) Q post lp L bt ct r Hinv Hwe Hie Hke ltac:(lia) Hine Hr) as [n2 [s2 Hr2]].
         rewrite Ee in Hr2. cbn [fst] in Hr2. rewrite HQ in Hr2.
+        assert (Hpre : forall f, runs (n1 + (1 + (n2 + f))) (length pre) [] s = runs (n2 + f) (length Pp + (length ct0 + 4)) [] s).
+        { intros f. rewrite Hr1, <- HP. replace (1 + (n2 + f)) with (S (n2 + f)) by lia. apply Hs1. }
         exists (n1 + (1 + n2)), s2.
-        destruct r as [[rho' v]|x].
-        * destruct Hr2 as [Hinv2 Hr2]. split; [exact Hinv2|]. intros f.
-          rewrite <- Nat.add_assoc, Hr1, <- HP. replace (1 + n2 + f) with (S (n2 + f)) by lia. rewrite Hs1.
-          rewrite Hr2, Hlen.
-          replace (length pre + (length cc + 2 + length ct + 2 + length ce)) with (length Pp + (length ct + 4) + length ce) by lia.
-          reflexivity.
-        * intros f. rewrite <- Nat.add_assoc, Hr1, <- HP. replace (1 + n2 + f) with (S (n2 + f)) by lia. rewrite Hs1. exact (Hr2 f).
+        destruct r as [[rho' v]|[x|rho'|rho']].
+        * destruct Hr2 as [Hinv2 Hr2]. split; [exact Hinv2|]. intros f. rewrite <- !Nat.add_assoc, Hpre, Hr2.
+          f_equal; rewrite ?HP; cbn [length]; lia.
+        * intros f. rewrite <- !Nat.add_assoc, Hpre. exact (Hr2 f).
+        * destruct Hr2 as [Hinv2 Hr2]. split; [exact Hinv2|]. intros f. rewrite <- !Nat.add_assoc, Hpre. exact (Hr2 f).
+        * destruct Hr2 as [Hinv2 Hr2]. split; [exact Hinv2|]. intros f. rewrite <- !Nat.add_assoc, Hpre. exact (Hr2 f).
     - (* if without else: the else-branch is a lone Nil *)
       pose proof (vm_inv_globals_ok rho _ s Hinv) as Hg.
       rewrite PF.wf_SIf1 in Hwf. apply andb_true_iff in Hwf. destruct Hwf as [Hwc Hwt].
       rewrite PF.code_SIf1 in *. rewrite PF.sneed_SIf1 in Hn. rewrite PF.run_SIf1 in Hr.
       cbn [P.ndecls Nat.add P.is_expr_stmt] in *.
       destruct (F.cexp base cnd) as [cc kc] eqn:Ec.
-      destruct (P.block_code (length rho) (base + length kc) t) as [ct kt] eqn:Et. cbn [fst snd] in *.
-      set (offF := (F.nlenN ct + 4)%N) in *.
-      assert (HoffF : N.to_nat offF = length ct + 4) by (unfold offF, F.nlenN; rewrite N2Nat.inj_add, Nat2N.id; reflexivity).
-      assert (Hlen : length (cc ++ [opPopJumpForwardIfFalse; offF] ++ ct ++ [opJumpForward; 3%N] ++ [opNil]) =
-                     length cc + 2 + length ct + 2 + 1) by (rewrite !app_length; cbn [length]; lia).
-      assert (Hic : instr = pre ++ fst (F.cexp base cnd) ++ ([opPopJumpForwardIfFalse; offF] ++ ct ++ [opJumpForward; 3%N] ++ [opNil] ++ post))
+      destruct (P.block_code (length rho) (base + length kc) t) as [ct0 kt] eqn:Et. cbn [fst snd] in *.
+      set (o := length pre - L) in *.
+      rewrite !npatch_app, !npatch_I, !I_length in Hi. cbn [length] in Hi.
+      set (pt := npatch (o + length cc + 2) bt ct ct0) in *.
+      assert (Hlpt : length pt = length ct0) by (apply (npatch_length (o + length cc + 2)); reflexivity).
+      set (offF := (nlen ct0 + 4)%N) in *.
+      assert (HoffF : N.to_nat offF = length ct0 + 4) by (unfold offF, nlen; rewrite N2Nat.inj_add, Nat2N.id; reflexivity).
+      assert (Hlen : length (I cc ++ I [opPopJumpForwardIfFalse; offF] ++ ct0 ++ I [opJumpForward; 3%N] ++ I [opNil]) =
+                     length cc + 2 + length ct0 + 2 + 1) by (rewrite !app_length, !I_length; cbn [length]; lia).
+      rewrite Hlen in Hin |- *.
+      assert (Hic : instr = pre ++ fst (F.cexp base cnd) ++ ([opPopJumpForwardIfFalse; offF] ++ pt ++ [opJumpForward; 3%N] ++ [opNil] ++ post))
         by (rewrite Ec; cbn [fst]; rewrite Hi, <- !app_assoc; reflexivity).
       assert (Hkc : consts_at base (snd (F.cexp base cnd))) by (rewrite Ec; exact (consts_l kc kt base Hc)).
       destruct (vm_scalar tabs c below frames free defers is_main s rho Hg cnd base pre _ [] Hwc Hic Hkc ltac:(cbn [length]; lia)) as [n1 Hr1].
@@ -468,10 +588,10 @@ Section VarVM.
       2:{ inversion Hr; subst r. exists n1, s. exact Hr1. }
       set (Pp := pre ++ cc).
       assert (HP : length Pp = length pre + length cc) by (unfold Pp; apply app_length).
-      assert (Hc1 : instr = Pp ++ opPopJumpForwardIfFalse :: offF :: (ct ++ [opJumpForward; 3%N] ++ [opNil] ++ post))
+      assert (Hc1 : instr = Pp ++ opPopJumpForwardIfFalse :: offF :: (pt ++ [opJumpForward; 3%N] ++ [opNil] ++ post))
         by (rewrite Hi; unfold Pp; rewrite <- !app_assoc; reflexivity).
       assert (Hs1 : forall f, runs (S f) (length Pp) [inj vc] s =
-                              runs f (if F.struthy vc then length Pp + 2 else length Pp + (length ct + 4)) [] s).
+                              runs f (if F.struthy vc then length Pp + 2 else length Pp + (length ct0 + 4)) [] s).
       { intros f.
         rewrite (step_popjump tabs c below frames free defers is_main s f (length Pp) [] (inj vc) (F.struthy vc) opPopJumpForwardIfFalse);
           [|rewrite Hc1; apply at0|auto|apply truthy_inj].
@@ -482,52 +602,112 @@ Section VarVM.
       + (* the block, followed by the jump over the Nil *)
         set (Q := Pp ++ [opPopJumpForwardIfFalse; offF]).
         assert (HQ : length Q = length Pp + 2) by (unfold Q; rewrite app_length; reflexivity).
-        assert (Hit : instr = Q ++ fst (P.block_code (length rho) (base + length kc) t) ++ ([opJumpForward; 3%N] ++ [opNil] ++ post))
-          by (rewrite Et; cbn [fst]; rewrite Hi; unfold Q, Pp; rewrite <- !app_assoc; reflexivity).
+        assert (Hpt : pt = npatch (length Q - L) bt ct ct0).
+        { unfold pt. apply (npatch_off lp).
+          - intros Hl. destruct (Hin Hl) as [H1 _]. rewrite HQ, HP. unfold o. lia.
+          - intros Hl. subst lp. pose proof (block_code_no_ph t (length rho) (base + length kc) Hwt) as H0. rewrite Et in H0. exact H0. }
+        assert (Hit : instr = Q ++ npatch (length Q - L) bt ct (fst (P.block_code (length rho) (base + length kc) t)) ++ ([opJumpForward; 3%N] ++ [opNil] ++ post))
+          by (rewrite Et; cbn [fst]; rewrite <- Hpt, Hi; unfold Q, Pp; rewrite <- !app_assoc; reflexivity).
         assert (Hkt : consts_at (base + length kc) (snd (P.block_code (length rho) (base + length kc) t)))
           by (rewrite Et; exact (consts_r kc kt base Hc)).
-        destruct (vm_block n (IH n ltac:(lia)) t rho room s (base + length kc) Q _ r Hinv Hwt Hit Hkt ltac:(lia) Hr) as [n2 [s2 Hr2]].
+        assert (Hint : inside lp Q (length (fst (P.block_code (length rho) (base + length kc) t))) L bt ct).
+        { rewrite Et. cbn [fst]. intros Hl. destruct (Hin Hl) as [H1 [H2 H3]]. rewrite HQ, HP. repeat split; lia. }
+        destruct (vm_block n (IH n ltac:(lia)) t rho room s (base + length kc) Q _ lp L bt ct r Hinv Hwt Hit Hkt ltac:(lia) Hint Hr) as [n2 [s2 Hr2]].
         rewrite Et in Hr2. cbn [fst] in Hr2. rewrite HQ in Hr2.
-        destruct r as [[rho' v]|x].
+        assert (Hpre : forall f, runs (n1 + (1 + (n2 + f))) (length pre) [] s = runs (n2 + f) (length Pp + 2) [] s).
+        { intros f. rewrite Hr1, <- HP. replace (1 + (n2 + f)) with (S (n2 + f)) by lia. apply Hs1. }
+        destruct r as [[rho' v]|[x|rho'|rho']].
         * destruct Hr2 as [Hinv2 Hr2].
           exists (n1 + (1 + (n2 + 1))), s2. split; [exact Hinv2|]. intros f.
-          rewrite <- Nat.add_assoc, Hr1, <- HP.
-          replace (1 + (n2 + 1) + f) with (S (n2 + S f)) by lia. rewrite Hs1, Hr2.
-          assert (Hj : instr = (Q ++ ct) ++ opJumpForward :: 3%N :: ([opNil] ++ post))
+          rewrite <- !Nat.add_assoc, Hpre, Hr2. cbn [Nat.add].
+          assert (Hj : instr = (Q ++ pt) ++ opJumpForward :: 3%N :: ([opNil] ++ post))
             by (rewrite Hi; unfold Q, Pp; rewrite <- !app_assoc; reflexivity).
-          assert (HQt : length (Q ++ ct) = length Pp + 2 + length ct) by (rewrite app_length, HQ; reflexivity).
-          rewrite (step_jump tabs c below frames free defers is_main s2 f (length Pp + 2 + length ct) [inj v]); [|rewrite Hj, <- HQt; apply at0].
-          assert (E : nth (length Pp + 2 + length ct + 1) instr 0%N = 3%N) by (rewrite Hj, <- HQt; apply at1).
-          rewrite E, Hlen. change (N.to_nat 3) with 3.
-          replace (length pre + (length cc + 2 + length ct + 2 + 1)) with (length Pp + 2 + length ct + 3) by lia.
-          reflexivity.
-        * exists (n1 + (1 + n2)), s2. intros f.
-          rewrite <- Nat.add_assoc, Hr1, <- HP. replace (1 + n2 + f) with (S (n2 + f)) by lia. rewrite Hs1. exact (Hr2 f).
+          assert (HQt : length (Q ++ pt) = length Pp + 2 + length ct0) by (rewrite app_length, HQ, Hlpt; reflexivity).
+          rewrite (step_jump tabs c below frames free defers is_main s2 f (length Pp + 2 + length ct0) [inj v]); [|rewrite Hj, <- HQt; apply at0].
+          assert (E : nth (length Pp + 2 + length ct0 + 1) instr 0%N = 3%N) by (rewrite Hj, <- HQt; apply at1).
+          rewrite E. change (N.to_nat 3) with 3.
+          f_equal; rewrite ?HP; cbn [length]; lia.
+        * exists (n1 + (1 + n2)), s2. intros f. rewrite <- !Nat.add_assoc, Hpre. exact (Hr2 f).
+        * destruct Hr2 as [Hinv2 Hr2]. exists (n1 + (1 + n2)), s2. split; [exact Hinv2|]. intros f. rewrite <- !Nat.add_assoc, Hpre. exact (Hr2 f).
+        * destruct Hr2 as [Hinv2 Hr2]. exists (n1 + (1 + n2)), s2. split; [exact Hinv2|]. intros f. rewrite <- !Nat.add_assoc, Hpre. exact (Hr2 f).
       + (* the condition is false: Nil *)
         inversion Hr; subst r. clear Hr.
-        set (Q := Pp ++ [opPopJumpForwardIfFalse; offF] ++ ct ++ [opJumpForward; 3%N]).
-        assert (HQ : length Q = length Pp + (length ct + 4)) by (unfold Q; rewrite !app_length; cbn [length]; lia).
+        set (Q := Pp ++ [opPopJumpForwardIfFalse; offF] ++ pt ++ [opJumpForward; 3%N]).
+        assert (HQ : length Q = length Pp + (length ct0 + 4)) by (unfold Q; rewrite !app_length, Hlpt; cbn [length]; lia).
         assert (Hnil : instr = Q ++ opNil :: post) by (rewrite Hi; unfold Q, Pp; rewrite <- !app_assoc; reflexivity).
         exists (n1 + (1 + 1)), s. split; [exact Hinv|]. intros f.
         rewrite <- Nat.add_assoc, Hr1, <- HP. replace (1 + 1 + f) with (S (S f)) by lia. rewrite Hs1, <- HQ.
         rewrite (step_push tabs c below frames free defers is_main s f (length Q) [] opNil VNil);
-          [|rewrite Hnil; apply at0|auto|pose proof (need_pos cnd); cbn [length]; lia].
-        rewrite Hlen, HQ.
-        replace (length pre + (length cc + 2 + length ct + 2 + 1)) with (S (length Pp + (length ct + 4))) by lia.
-        reflexivity.
+          [|rewrite Hnil; apply at0|auto|pose proof (PF.need_pos cnd); cbn [length]; lia].
+        rewrite HQ.
+        f_equal; rewrite ?HP; cbn [length]; lia.
     - (* for *)
       rewrite PF.wf_SWhile in Hwf. apply andb_true_iff in Hwf. destruct Hwf as [Hwc Hwb].
       cbn [P.ndecls Nat.add P.is_expr_stmt] in *.
-      exact (vm_loop cnd b base pre post (length rho) Hi Hc Hn Hwc Hwb (S n) ltac:(intros j Hj; apply IH; lia)
-               rho room s r eq_refl Hinv Hr).
+      assert (Hnp : no_ph (fst (P.stmt_code (length rho) base (P.SWhile cnd b)))).
+      { rewrite PF.code_SWhile. destruct (F.cexp base cnd). destruct (P.block_code (length rho) (base + length l0) b).
+        cbv zeta. cbn [fst]. apply no_ph_app; [apply no_ph_patch|apply no_ph_I]. }
+      rewrite (npatch_no_ph bt ct _ _ Hnp) in Hi.
+      exact (proj2 (vm_loop cnd b base pre post (length rho) Hi Hc Hn Hwc Hwb (S n) ltac:(intros j Hj; apply IH; lia)
+                     rho room s r L bt ct eq_refl Hinv Hr)).
+    - (* break: jump to the loop's break target *)
+      cbn [P.wf_stmt] in Hwf. subst lp. destruct (Hin eq_refl) as [H1 [H2 H3]].
+      cbn [P.run_stmt] in Hr. inversion Hr; subst r. clear Hr.
+      cbn [P.stmt_code fst snd npatch length P.ndecls Nat.add] in *.
+      exists 1, s. split; [exact Hinv|]. intros f. cbn [Nat.add].
+      rewrite (step_jump tabs c below frames free defers is_main s f (length pre) []) by (rewrite Hi; apply at0).
+      assert (E : nth (length pre + 1) instr 0%N = N.of_nat (bt - (S (length pre - L) - 1))) by (rewrite Hi; apply at1).
+      rewrite E, Nat2N.id. replace (length pre + (bt - (S (length pre - L) - 1))) with (L + bt) by lia. reflexivity.
+    - (* continue *)
+      cbn [P.wf_stmt] in Hwf. subst lp. destruct (Hin eq_refl) as [H1 [H2 H3]].
+      cbn [P.run_stmt] in Hr. inversion Hr; subst r. clear Hr.
+      cbn [P.stmt_code fst snd npatch length P.ndecls Nat.add] in *.
+      exists 1, s. split; [exact Hinv|]. intros f. cbn [Nat.add].
+      rewrite (step_jump tabs c below frames free defers is_main s f (length pre) []) by (rewrite Hi; apply at0).
+      assert (E : nth (length pre + 1) instr 0%N = N.of_nat (ct - (S (length pre - L) - 1))) by (rewrite Hi; apply at1).
+      rewrite E, Nat2N.id. replace (length pre + (ct - (S (length pre - L) - 1))) with (L + ct) by lia. reflexivity.
   Qed.
 
+  (* a whole program: not inside any loop *)
   Lemma vm_prog n : forall l rho room s base pre post last r,
-    l <> [] -> vm_inv rho (P.ndecls l + room) s -> P.wf_stmts true (length rho) l = true ->
+    l <> [] -> vm_inv rho (P.ndecls l + room) s -> P.wf_stmts true false (length rho) l = true ->
     instr = pre ++ fst (P.pcode (length rho) base l) ++ post ->
     consts_at base (snd (P.pcode (length rho) base l)) ->
     below + P.max_need l <= MAXSTACK ->
     P.run_stmts n rho l last = Some r ->
-    after r room s (length pre) (length pre + length (fst (P.pcode (length rho) base l))) (fun v => [inj v]).
-  Proof. intros l rho room s base pre post last r. exact (vm_list n (vm_stmt n) l rho room s base pre post last true r). Qed.
+    after r room s (length pre) (length pre + length (fst (P.pcode (length rho) base l))) 0 0 0 (fun v => [inj v]).
+  Proof.
+    intros l rho room s base pre post last r Hne Hinv Hwf Hi Hc Hn Hr.
+    unfold P.pcode in *. cbn [fst snd] in *. rewrite strip_length.
+    rewrite <- (npatch_no_ph 0 0 _ (length pre - 0) (scode_no_ph l true (length rho) base Hwf)) in Hi.
+    exact (vm_list n (vm_stmt n) l rho room s base pre post last true false 0 0 0 r Hne Hinv Hwf Hi Hc Hn
+             ltac:(intros H; discriminate) Hr).
+  Qed.
+
+  (* a statement that is not inside a loop, stated without the loop context: its code has no placeholder, and it can only
+     end normally or with an error *)
+  Theorem vm_stmt_plain n st rho room s base pre post top r :
+    vm_inv rho (P.ndecls [st] + room) s -> P.wf_stmt top false (length rho) st = true ->
+    instr = pre ++ P.strip (fst (P.stmt_code (length rho) base st)) ++ post ->
+    consts_at base (snd (P.stmt_code (length rho) base st)) ->
+    below + P.sneed st <= MAXSTACK ->
+    P.run_stmt n rho st = Some r ->
+    exists k s',
+      match r with
+      | inl (rho', v) =>
+          vm_inv rho' room s' /\
+          forall f, runs (k + f) (length pre) [] s =
+                    runs f (length pre + length (fst (P.stmt_code (length rho) base st)))
+                         (if P.is_expr_stmt st then [inj v] else []) s'
+      | inr (P.StErr x) => forall f, runs (k + f) (length pre) [] s = (RErr (cls x) s', defers)
+      | inr _ => False
+      end.
+  Proof.
+    intros Hinv Hwf Hi Hc Hn Hr.
+    pose proof (PF.no_escape n rho st top r Hwf Hr) as Hno.
+    assert (Hnp : no_ph (fst (P.stmt_code (length rho) base st))) by (exact (stmt_no_ph _ st top (length rho) base (le_n _) Hwf)).
+    rewrite <- (npatch_no_ph 0 0 _ (length pre - 0) Hnp) in Hi.
+    destruct (vm_stmt n st rho room s base pre post top false 0 0 0 r Hinv Hwf Hi Hc Hn ltac:(intros H; discriminate) Hr) as [k [s' H]].
+    exists k, s'. destruct r as [[rho' v]|[x|rho'|rho']]; cbn [PF.no_ctl] in Hno; try contradiction; exact H.
+  Qed.
 End VarVM.
